@@ -53,9 +53,52 @@ fn ageing(plan: &Plan) -> ! {
     finish(&v, plan)
 }
 
+/// two bucket overrides (kinds and patterns of the solver's model), global buckets or not, one histogram of the model's name: which
+/// `le` bounds does the rendering show, and does the TYPE line agree
+fn precedence(plan: &Plan) -> ! {
+    use metrics_exporter_prometheus::Matcher;
+    let inp = |k: &str| plan.inputs.get(k).copied().unwrap_or(0);
+    let text_of = |pre: &str, n: u64| -> String { (0..n).map(|i| (b'a' + inp(&format!("{}_{}", pre, i)) as u8) as char).collect() };
+    let (p1, p2, nm) = (text_of("p1", inp("len1")), text_of("p2", inp("len2")), text_of("nm", 3));
+    let kind = |k: u64| -> u8 { if k == inp("kFull") { 0 } else if k == inp("kPrefix") { 1 } else { 2 } };
+    let (k1, k2) = (kind(inp("kind1")), kind(inp("kind2")));
+    let mat = |k: u8, p: &str| match k { 0 => Matcher::Full(p.to_string()), 1 => Matcher::Prefix(p.to_string()), _ => Matcher::Suffix(p.to_string()) };
+    let hit = |k: u8, p: &str| match k { 0 => nm == p, 1 => nm.starts_with(p), _ => nm.ends_with(p) };
+    let mut v: Vec<&str> = vec![];
+    let mut b = PrometheusBuilder::new().set_buckets_for_metric(mat(k1, &p1), &[1.0]).unwrap().set_buckets_for_metric(mat(k2, &p2), &[2.0]).unwrap();
+    if inp("global") != 0 { b = b.set_buckets(&[3.0]).unwrap(); }
+    let rec = b.build_recorder();
+    let handle = rec.handle();
+    rec.register_histogram(&Key::from_name(nm.clone()), &MD).record(0.5);
+    let text = handle.render();
+    println!("{}", text);
+    let lines = match check_exposition(&text) { Ok(l) => l, Err(e) => { println!("exposition does not parse: {}", e); v.push("returns"); finish(&v, plan) } };
+    let mut les: Vec<String> = vec![]; let mut quant = false; let mut ty = String::new();
+    for l in &lines {
+        match l {
+            Line::Sample(s) => {
+                if let Some((_, le)) = s.labels.iter().find(|(k, _)| k == "le") { if le != "+Inf" { les.push(le.clone()); } }
+                if s.labels.iter().any(|(k, _)| k == "quantile") { quant = true; }
+            }
+            Line::Type(n, t) => { if *n == nm { ty = t.clone(); } }
+            _ => {}
+        }
+    }
+    let got: i32 = if quant || les.is_empty() { -1 } else { les[0].parse::<f64>().map(|x| x as i32).unwrap_or(-2) };
+    let (m1, m2) = (hit(k1, &p1), hit(k2, &p2));
+    let want: Vec<i32> = if m1 && m2 { if k1 < k2 { vec![1] } else if k2 < k1 { vec![2] } else { vec![1, 2] } }
+        else if m1 { vec![1] } else if m2 { vec![2] } else if inp("global") != 0 { vec![3] } else { vec![-1] };
+    println!("overrides {:?}({:?}) -> le 1, {:?}({:?}) -> le 2, global: {}; name {:?}: rendered {} (TYPE {:?}); the rule allows {:?}", k1, p1, k2, p2, inp("global"), nm,
+             if got == -1 { "a summary".to_string() } else { format!("le {}", got) }, ty, want);
+    if !want.contains(&got) { v.push("full_then_prefix_then_suffix_then_global"); }
+    if (got == -1) != (ty == "summary") { v.push("type_string_agrees_with_distribution"); }
+    finish(&v, plan)
+}
+
 fn main() {
     let plan = load_plan(&std::env::args().nth(1).expect("plan"));
     if plan.scenario == "c15_ageing" { ageing(&plan); }
+    if plan.scenario == "c15_precedence" { precedence(&plan); }
     let inp = |k: &str| plan.inputs.get(k).copied().unwrap_or(0);
     let (n, d, now, k, batch) = (inp("n"), inp("d"), inp("now"), inp("k") as usize, inp("batch") != 0);
     let ts: Vec<u64> = (0..k).map(|i| inp(&format!("ts{}", i))).collect();
